@@ -21,7 +21,7 @@ import z3
 
 from . import ops
 from .explore import SymRaise
-from .values import (Sym, SBool, SInt, SReal, SFP, SStr, SBytes, SHex, SOpaque, Unsupported,
+from .values import (Sym, SBool, SInt, SReal, SFP, SStr, SBytes, SHex, SOpaque, Unsupported, SNorm,
                      contains_sym, pytype_of)
 
 
@@ -1166,7 +1166,7 @@ class Interp:
             if name == "keywords":
                 return obj.kwargs
             raise SymRaise(AttributeError("'functools.partial' object has no attribute '%s'" % name))
-        if isinstance(obj, (SStr, str, SHex)):
+        if isinstance(obj, (SStr, str, SHex, SNorm)):
             if not hasattr(str, name):
                 raise SymRaise(AttributeError("'str' object has no attribute '%s'" % name))
             return BuiltinMethod(obj, name)
